@@ -33,6 +33,16 @@ fn check<T: for<'b> minicbor::Decode<'b, ()> + minicbor::Encode<()> + std::fmt::
     let bytes = minicbor::to_vec(v).unwrap();
     if item(&bytes, 0) != Some(bytes.len()) { println!("VIOLATED: {what} {v:?} encodes to {} which is not exactly one well-formed CBOR item", hex(&bytes)); std::process::exit(1); }
     match minicbor::decode::<T>(&bytes) { Ok(back) if same(&back, v) => {}, o => { println!("VIOLATED: {what} {v:?} -> {} -> {o:?}", hex(&bytes)); std::process::exit(1); } }
+    // reassembly (C21) rests on this: a proper prefix of a message never decodes, and for pallas-network's ChannelBuffer the decoder must report
+    // END OF INPUT (any other error aborts the channel instead of waiting for the next segment)
+    let v1 = !what.contains("network2");
+    for cut in 1..bytes.len() {      // the channel buffer never decodes an empty buffer
+        match minicbor::decode::<T>(&bytes[..cut]) {
+            Ok(m) => { println!("VIOLATED: {what} {v:?}: the first {cut} of its {} bytes ({}) already decode, as {m:?}", bytes.len(), hex(&bytes)); std::process::exit(1); }
+            Err(e) if v1 && !e.is_end_of_input() => { println!("VIOLATED: {what} {v:?}: decoding the first {cut} of its {} bytes ({}) fails with `{e}` instead of end-of-input — a segment boundary there breaks reassembly", bytes.len(), hex(&bytes)); std::process::exit(1); }
+            Err(_) => {}
+        }
+    }
     *n += 1;
 }
 
